@@ -33,7 +33,10 @@ POOL = {'V': ['volt', 'mV', 'uV', 'nV', 'pV', 'dmV'],      # nV -> uV -> mV -> v
         # several <unit> children, ONE of them prefixed: prefixed child first (mV_per_s, uA_per_m2, mM) and, as a control
         # with the same meaning, last (per_s_mV, per_m2_uA, per_L_mmol); named and integer prefixes
         'R': ['V_per_s', 'mV_per_s', 'per_s_mV'], 'J': ['A_per_m2', 'uA_per_m2', 'per_m2_uA'],
-        'C': ['mol_per_L', 'mM', 'per_L_mmol']}
+        'C': ['mol_per_L', 'mM', 'per_L_mmol'],
+        # user unit names X and Xs side by side (m / ms, u / us, metre_ / metre_s) and units built on Xs: a units library
+        # that knows X could read an undefined `Xs` as the plural of X
+        'F': ['per_s', 'per_ms', 'per_us'], 'L': ['m', 'u', 'metre_', 'metre_s']}
 # two user unit names whose MEANING changes from document to document (flavour 0, 1, 2)
 POOL['V'].append('uv_x')
 POOL['T'].append('ut_x')
@@ -87,6 +90,11 @@ def unit_defs(flavour=0, mass=()):
             _def('nV', [_child('uV', prefix='nano', multiplier='1e6')]), _def('pV', [_child('nV', multiplier='0.001')]),
             _def('mV_ms', [_child('mV'), _child('ms')]), _def('dmV', [_child('mV_ms'), _child('ms', exponent='-1')]),
             _def('mg', [_child('gram', prefix='milli')]),
+            _def('m', [_child('metre')]), _def('u', [_child('metre', prefix='micro')]),
+            _def('us', [_child('second', prefix='micro')]),
+            _def('metre_', [_child('metre', multiplier='2')]), _def('metre_s', [_child('metre_', multiplier='3')]),
+            _def('per_s', [_child('second', exponent='-1')]), _def('per_ms', [_child('ms', exponent='-1')]),
+            _def('per_us', [_child('us', exponent='-1')]),
             _def('V_per_s', [_child('volt'), _child('second', exponent='-1')]),
             _def('mV_per_s', [_child('volt', prefix='milli'), _child('second', exponent='-1')]),
             _def('per_s_mV', [_child('second', exponent='-1'), _child('volt', prefix='milli')]),
@@ -695,7 +703,7 @@ class Gen(object):
         self.vars[c].append(v)
         return v
 
-    def import_var(self, sc, sv, dc):
+    def import_var(self, sc, sv, dc, force=None):
         """make the variable sv of component sc available in dc; returns the local variable (or None)"""
         key0 = (sc, sv['name'])
         if sv.get('owner'):
@@ -722,6 +730,8 @@ class Gen(object):
             cur_v[a] = 'out'
             lname = cur_v['name'] if self.rng.random() < 0.6 else self.rng.choice(['p', 'q', 'w', 'x', 'y', 'z', 'u'])
             units = cur_v['units'] if self.rng.random() < 0.45 else self.rng.choice(self.pool[cur_v['dim']])
+            if force is not None:
+                units = force
             nv = self.new_var(nxt, lname, units, 'import')
             nv[b] = 'in'
             nv['owner'] = list(key0)
@@ -765,7 +775,7 @@ class Gen(object):
             return ['times'] + args
         if k < 0.7:
             if dim == '1':
-                d2 = r.choice(['V', 'T', 'U', '1', 'A', 'H', 'Q', 'N', 'M', 'R', 'J', 'C'])
+                d2 = r.choice(['V', 'T', 'U', '1', 'A', 'H', 'Q', 'N', 'M', 'R', 'J', 'C', 'F', 'L'])
                 return ['divide', self.expr(c, d2, avail, depth - 1), self.pos(c, d2, avail)]
             return ['divide', self.expr(c, dim, avail, depth - 1), self.pos(c, '1', avail)]
         if k < 0.8 and dim == '1':
@@ -862,7 +872,7 @@ class Gen(object):
         for c in order:
             nown = r.randint(1, 4)
             for j in range(nown):
-                dim = r.choice(['V', 'V', 'T', '1', 'U', 'A', 'H', 'Q', 'N', 'M', 'R', 'J', 'C', 'R'])
+                dim = r.choice(['V', 'V', 'T', '1', 'U', 'A', 'H', 'Q', 'N', 'M', 'R', 'J', 'C', 'R', 'F', 'F', 'L'])
                 units = r.choice(self.pool[dim])
                 kind = r.choice(['state', 'const', 'comp', 'comp'])
                 base = r.choice(['v', 'x', 'y', 'g', 'k', 'a', 'b', 'm', 'h'])
@@ -908,6 +918,7 @@ class Gen(object):
                             rhs = ['divide', self.expr(c, dim, avail2, r.randint(1, 2)), self.pos(c, 'T', avail)]
                         self.maths[c].append(['eq', ['diff', ci(v['name']), ci(lt['name'])], rhs])
                 owned.append((c, v))
+        self.add_pingpong(owned)
         if self.case_names:
             self.add_case_pairs(owned)
         # cmeta ids
@@ -933,6 +944,28 @@ class Gen(object):
                     self.cm += 1
                     nv['cmeta'] = 'id%d' % self.cm
         return self.document()
+
+    def add_pingpong(self, owned):
+        """two unrelated unit-changing connections between the SAME pair of units in OPPOSITE directions (u1 -> u2 for
+        one variable, u2 -> u1 for another), preferably in different <connection> elements"""
+        r = self.rng
+        if len(self.names) < 2:
+            return
+        for _ in range(r.randint(1, 2)):
+            dim = r.choice(['V', 'T', 'M', 'R', 'J', 'C', 'A', 'F', 'L', 'V'])
+            if len(self.pool[dim]) < 2:
+                continue
+            u1, u2 = r.sample(self.pool[dim], 2)
+            src = r.choice(self.names)
+            others = [c for c in self.names if c != src]
+            d1 = r.choice(others)
+            d2 = r.choice(others)
+            p = self.new_var(src, 'ping', u1, 'const', init=r.choice(NUMS))
+            q = self.new_var(src, 'pong', u2, 'const', init=r.choice(NUMS))
+            owned.append((src, p))
+            owned.append((src, q))
+            self.import_var(src, p, d1, force=u2)
+            self.import_var(src, q, d2, force=u1)
 
     def add_case_pairs(self, owned):
         """variables of one component whose names differ only in case, in the same topological layer (constants, or
@@ -1417,7 +1450,7 @@ def impl_values(model, doc, classes, si):
 
 
 # ---- permutations (C15) -------------------------------------------------------------------------------------------
-PERM_KINDS = ['units', 'units_reversed', 'units_forward', 'groups', 'connections', 'map_variables', 'ends', 'maths', 'components']
+PERM_KINDS = ['units', 'units_reversed', 'units_forward'] + ['units_triple_%d' % i for i in range(6)] + [ 'groups', 'connections', 'map_variables', 'ends', 'maths', 'components']
 
 
 def permute(doc, kind, rng):
@@ -1440,6 +1473,19 @@ def permute(doc, kind, rng):
         for i, it in zip(pos, s):
             order[i] = it
         return True
+    if kind.startswith('units_triple_'):
+        # X, Xs and a unit built on Xs (m, ms, per_ms / u, us, per_us) written LAST in each of their six orders: the
+        # work-list of _add_units meets them first
+        import itertools
+        trip = [['m', 'ms', 'per_ms'], ['u', 'us', 'per_us']][rng.randrange(2)]
+        idx = {u['name']: i for i, u in enumerate(d['units'])}
+        if any(n not in idx for n in trip):
+            return None
+        perm = list(itertools.permutations(trip))[int(kind[-1])]
+        mine = [['units', idx[n]] for n in perm]
+        rest = [it for it in order if it not in mine]
+        d['order'] = rest + mine
+        return d
     if kind in ('units_reversed', 'units_forward'):
         # every <units> before (after) the units it is defined from: chains of depth >= 3 and diamonds written in
         # reverse (forward) dependency order
@@ -2043,6 +2089,14 @@ def observe(path):
     rec['eqs_for_each'] = q(lambda: [[v.name] + [strip(str(e)) for e in model.get_equations_for([v], strip_units=False)]
                                      for v in sorted(model.get_derived_quantities(), key=lambda x: x.name)[:8]])
     rec['free'] = q(lambda: model.get_free_variable().name)
+    # every number of every equation with all its digits (a Quantity prints 6 significant digits), keyed by left-hand
+    # side, and the base-unit expansion of the unit of every variable: independent of any order in the file
+    def numbers():
+        from cellmlmanip.model import Quantity
+        return sorted([strip(str(e.lhs)), sorted(float(a).hex() for a in e.rhs.atoms(Quantity))] for e in model.equations)
+    rec['eq_numbers'] = q(numbers)
+    rec['unit_meaning'] = q(lambda: sorted([v.name, strip(model.units.format(v.units, base_units=True))]
+                                           for v in model.variables()))
     # annotations: for every variable the ordered list of ontology terms and the display name derived from them
     rec['annotations'] = q(lambda: [[v.name, model.get_ontology_terms_by_variable(v), model.get_ontology_terms_by_variable(v, OXMETA),
                                      model.get_display_name(v), model.get_display_name(v, OXMETA)] for v in model.variables()])
